@@ -221,6 +221,42 @@ def gen_x5(thorough):
             yield 'X5:' + ','.join(str(i) for i in tup), '\n'.join(sub[i] for i in tup) + '\n'
 
 
+# X6: the same statement executed several times with different values of the variables it mentions (a loop body, a nested
+# loop, a loop inside a conditional): every evaluation must use the values of *that* iteration.
+X6_INT_BODIES = [
+    "r += [i]", "r += [[i, 9]]", "r += [{'k': i}]", "r += [f'v@i@']", "r += ['v@0@'.format(i)]", "r += [i + 1]", "r += [[i][0]]",
+    "r += [i == 2 ? 'two' : 'other']", "r += [i.to_string()]", "r += [i.is_even()]", "r += [[i, i * 2].contains(2)]",
+    "foreach j : [i, 7]\n    r += [j]\n  endforeach", "foreach j : [[i]]\n    r += j\n  endforeach",
+    "foreach k, v : {'a': i}\n    r += [v]\n  endforeach", "foreach j : range(i)\n    r += [j]\n  endforeach",
+    "if i == 2\n    r += ['t']\n  else\n    r += [i]\n  endif", "if [i] == [2]\n    continue\n  endif\n  r += [i]",
+    "x = [i]\n  r += x", "x = i\n  x += 1\n  r += [x]", "set_variable('y', i)\n  r += [get_variable('y')]",
+    "r += [i in [2, 3]]", "r += [not (i == 1)]", "r += [-i]", "r += [i % 2]", "r += [[i, 5][1 - (i % 2)]]",
+    # fails in a later iteration only
+    "r += [[7, 8, 9][i * 2 - 2]]", "r += [6 / (i - 2)]", "r += [i + (i == 3 ? 'x' : 1)]",
+]
+X6_STR_BODIES = [
+    "r += [s]", "r += [[s, 'k']]", "r += [{s: 1}]", "r += [f'<@s@>']", "r += ['<@0@>'.format(s)]", "r += [s + 'q']", "r += [s.to_upper()]",
+    "r += [s == 'y' ? 1 : 2]", "r += [s / 'd']", "r += [s in ['x', 'z']]", "r += ['a-@0@-b'.format(s).split('-')]",
+    "foreach t : [s, 'k']\n    r += [s + t]\n  endforeach", "foreach t : [[s, s]]\n    r += t\n  endforeach",
+    "foreach k, v : {s: s}\n    r += [k + v]\n  endforeach", "r += [s.startswith('x')]", "r += [[s][0].strip()]",
+    "d = {'k': s}\n  r += [d['k']]", "r += [', '.join([s, s])]",
+]
+
+
+def gen_x6(thorough):
+    n = 0
+    for it, bodies in (('[1, 2, 3]', X6_INT_BODIES), ('[3, 1, 2, 2]', X6_INT_BODIES), ("['x', 'y', 'z']", X6_STR_BODIES), ("['z', 'z', 'x']", X6_STR_BODIES)):
+        var = 'i' if bodies is X6_INT_BODIES else 's'
+        for b in bodies:
+            n += 1
+            yield 'X6:loop:%d' % n, 'r = []\nforeach %s : %s\n  %s\nendforeach\n' % (var, it, b)
+            # the same loop run twice (second time over another sequence), and nested in an outer loop
+            it2 = it.replace('[', '[' + ("5, " if var == 'i' else "'w', "), 1)
+            yield 'X6:twice:%d' % n, 'r = []\nforeach %s : %s\n  %s\nendforeach\nforeach %s : %s\n  %s\nendforeach\n' % (var, it, b, var, it2, b)
+            inner = '\n'.join('  ' + l for l in ('foreach %s : %s\n  %s\nendforeach' % (var, it, b)).split('\n'))
+            yield 'X6:nested:%d' % n, 'r = []\nforeach o : [1, 2]\n%s\nendforeach\n' % inner
+
+
 X5_PRESTATES = [
     # values that were themselves produced by += / + / method calls (most aliasing defects need a non-initial state)
     "a = [1]\na += [0]\nb = [2]\nb += [0]\n",
@@ -238,7 +274,7 @@ def gen_x5s(thorough):
                 yield 'X5s%d:' % pi + ','.join(str(i) for i in tup), pre + '\n'.join(tl[i] for i in tup) + '\n'
 
 
-FAMILIES = {'x1': gen_x1, 'x1s': gen_x1_short, 'x2': gen_x2, 'x3': gen_x3, 'x4': gen_x4, 'x5': gen_x5, 'x5s': gen_x5s}
+FAMILIES = {'x1': gen_x1, 'x1s': gen_x1_short, 'x2': gen_x2, 'x3': gen_x3, 'x4': gen_x4, 'x5': gen_x5, 'x5s': gen_x5s, 'x6': gen_x6}
 
 # ------------------------------------------------------------------------------------------------------------
 _pool = None
@@ -657,7 +693,7 @@ def main():
         sys.exit(0 if v in ('ok', 'unspec') else 1)
     fams = [f for f in FAMILIES if ck.want(f)]
     jobs = []
-    nsh = {'x1': 4 * NCPU, 'x1s': NCPU, 'x2': NCPU, 'x3': NCPU, 'x4': NCPU, 'x5': 2 * NCPU, 'x5s': 2 * NCPU}
+    nsh = {'x1': 4 * NCPU, 'x1s': NCPU, 'x2': NCPU, 'x3': NCPU, 'x4': NCPU, 'x5': 2 * NCPU, 'x5s': 2 * NCPU, 'x6': 4}
     for f in fams:
         for s in range(nsh[f]):
             jobs.append((f, s, nsh[f], ck.thorough))
